@@ -15,14 +15,14 @@ def explore(ctx, proof, mine, builders, rule, assumptions, nontrivial=None, extr
         built = []
         for (label, fn) in builders:
             try:
-                L, first, nblocks, meta = fn(ctx)
+                L, first, nblocks, meta, *rest = fn(ctx)
             except Exception as e:       # generator bug: make it visible
                 ctx.notes.append("generator %s raised %r" % (label, e))
                 continue
-            built.append((label, L, first, nblocks, meta))
+            built.append((label, L, first, nblocks, meta, rest[0] if rest else {}))
         # the histories are independent: run them on all cores (generation above stays sequential, so a seed replays exactly)
-        results = common.pmap(lambda b: hist.run_history(ctx, b[1], first=b[2], nblocks=b[3]), built)
-        for (label, L, first, nblocks, meta), r in zip(built, results):
+        results = common.pmap(lambda b: hist.run_history(ctx, b[1], first=b[2], nblocks=b[3], **b[5]), built)
+        for (label, L, first, nblocks, meta, opts), r in zip(built, results):
             ops = [l.split()[0] for l in L if l.split()]
             key = (label, json.dumps(meta, sort_keys=True, default=str), len(L), hash(tuple(L)))
             nt = True if nontrivial is None else nontrivial(L, r)
@@ -39,7 +39,7 @@ def explore(ctx, proof, mine, builders, rule, assumptions, nontrivial=None, extr
                 if p in mine or p in ("CRASH", "TOOL"):
                     kind = "crash" if p == "CRASH" else ("corr" if p == "TOOL" else "oracle")
                     if first_fail is None and kind != "corr":
-                        first_fail = (L, first, nblocks, p, what)
+                        first_fail = (L, first, nblocks, p, what, opts)
                     ctx.fail(kind, what, {"generator": label, "meta": meta, "detail": det, "script": L}, expected="agreement with the reference model / a well-formed image", actual=det)
                 else:
                     others[p] = others.get(p, 0) + 1
@@ -52,8 +52,10 @@ def explore(ctx, proof, mine, builders, rule, assumptions, nontrivial=None, extr
         ctx.notes.append("proof obligations broken and no failing input in round %d: searching further" % rounds)
     if first_fail and ctx.tier == "quick":
         # shrink the first failing history to a minimal operation sequence for the replay file
-        L, first, nblocks, p, what = first_fail
+        L, first, nblocks, p, what, opts = first_fail
         try:
+            if opts:
+                raise RuntimeError("space-limited histories are not minimised (removing lines changes the fill level)")
             M = hist.minimize(ctx, L, lambda r: any(q == p and w == what for (q, w, d) in r["findings"]), keep_prefix=5, first=first, nblocks=nblocks, budget=60)
             ctx.failures[0]["input"]["minimised_script"] = M
         except Exception as e:
